@@ -14,6 +14,7 @@ exact shape with levels (internal).
 """
 import os
 import math
+import time
 from concurrent.futures import ThreadPoolExecutor
 
 import vf
@@ -26,7 +27,11 @@ NPROC = 16
 def build(ck):
     ck.forbid_scan()
     ck.build_proofs(PROP_MODULES, driver="drv_c07")
-    h = ck.cc(os.path.join(ck.bdir, "h"), [os.path.join(vf.HARNESS, PID, "h.c"), "repo:usual/aatree.c"])
+    src = [os.path.join(vf.HARNESS, PID, "h.c"), "repo:usual/aatree.c"]
+    h = ck.cc(os.path.join(ck.bdir, "h"), src)
+    # same harness without sanitizers: only for the n >= 7 range-hash sweeps (n <= 6 and
+    # everything else runs under ASan+UBSan)
+    ck.fast_harness = [ck.cc(os.path.join(ck.bdir, "h_fast"), src, san=False)]
     return [h], [ck.driver_path("drv_c07")]
 
 
@@ -330,7 +335,7 @@ def random_cases(ck, rng, stats, mult=1):
         cases.append(gen_random(rng, 300 + rng.below(500), 50 + rng.below(300), stats,
                                 stride=rng.choice([1, 3]), offset=rng.choice([0, 100])))
     # large
-    for _ in range(mult * ck.scale(4, 32)):
+    for _ in range(mult * ck.scale(4, 12)):
         n = ck.scale(2000, 10000)
         cases.append(gen_random(rng, 3 * n, 2 * n, stats, phases=((0.6, 76), (0.4, 8))))
     return cases
@@ -383,8 +388,9 @@ def run(ck):
 
     # 1. exhaustive insertion x removal orders
     nmax = ck.scale(6, 7)
+    t0 = time.time()
     for n in range(1, nmax + 1):
-        perms_exhaustive(ck, hcmd, dcmd, n)
+        perms_exhaustive(ck, hcmd if n <= 6 else ck.fast_harness, dcmd, n)
         if found_concrete(ck):
             return finish_counts(ck)
     ck.cov["exhaustive"] = True
@@ -400,7 +406,8 @@ def run(ck):
         for j in range(0, F, 8):
             i = rng.below(F - 6)
             blocks.append((i, i + 6, j, min(j + 8, F)))
-        perms_exhaustive(ck, hcmd, dcmd, 8, pairs=blocks, label="perms n=8 (sampled)")
+        perms_exhaustive(ck, ck.fast_harness, dcmd, 8, pairs=blocks, label="perms n=8 (sampled)")
+    ck.cov.setdefault("stage_s", {})["perms"] = round(time.time() - t0, 1)
     for (n, i, j) in ((3, 4, 1), (6, 517, 233)):
         ck.sample({"perms": {"n": n, "insertion_order": i, "removal_order": j}, "ops": perm_case(n, i, j)})
 
@@ -411,12 +418,16 @@ def run(ck):
     sizes = ck.scale([1, 2, 3, 7, 8, 15, 16, 31, 33, 64, 100, 255, 500, 2000],
                      [1, 2, 3, 7, 8, 15, 16, 31, 33, 64, 100, 255, 256, 1000, 4095, 10000])
     pcases = []
+    t0 = time.time()
     for N in sizes:
         for name, ins, rem in run_patterns(N):
+            if N > 5000 and name not in ("asc/asc", "asc/desc", "desc/asc", "desc/alt", "alt/inner", "alt/asc"):
+                continue
             pcases.append(pattern_case(ins, rem, 0 if N > 300 else 3))
     # biggest first so that the pool stays busy
     pcases.sort(key=len, reverse=True)
     run_cases_parallel(ck, hcmd, dcmd, pcases, "runs", chunk=1)
+    ck.cov["stage_s"]["runs"] = round(time.time() - t0, 1)
     ck.cov["run_sizes"] = sizes
     ck.cov["run_patterns"] = [p[0] for p in run_patterns(4)]
     ck.sample({"run": "alt/inner N=6", "ops": pattern_case(run_patterns(6)[11][1], run_patterns(6)[11][2], 3)})
@@ -427,12 +438,14 @@ def run(ck):
     # 3. random histories
     stats = {k: 0 for k in ("ins_new", "ins_dup", "rem_present", "rem_absent", "find", "walk", "count",
                             "destroy", "max_size")}
+    t0 = time.time()
     rcases = random_cases(ck, rng, stats)
     rcases.sort(key=len, reverse=True)
     big = [c for c in rcases if len(c) > 1500]
     small = [c for c in rcases if len(c) <= 1500]
     run_cases_parallel(ck, hcmd, dcmd, big, "random-large", chunk=1)
     run_cases_parallel(ck, hcmd, dcmd, small, "random")
+    ck.cov["stage_s"]["random"] = round(time.time() - t0, 1)
     ck.cov["op_histogram"] = stats
     noop = stats["ins_dup"] + stats["rem_absent"]
     mut = noop + stats["ins_new"] + stats["rem_present"]
@@ -453,7 +466,8 @@ def run(ck):
         F = math.factorial(n)
         step = ck.scale(35, 1)
         blocks = [(i, i + 1, 0, F if n <= 7 else 720) for i in range(0, F, step)]
-        perms_exhaustive(ck, hcmd, dcmd, n, pairs=blocks, label="perms n=%d (intensified)" % n)
+        perms_exhaustive(ck, hcmd if n <= 6 else ck.fast_harness, dcmd, n, pairs=blocks,
+                         label="perms n=%d (intensified)" % n)
         if not found_concrete(ck):
             stats2 = dict.fromkeys(stats, 0)
             more = random_cases(ck, rng, stats2, mult=4)
